@@ -109,6 +109,8 @@ type c31Case struct {
 	Creds    string `json:"creds"` // flag, env, absent; gateway only: flag-false (--auth=false), env-false (AUTH=false)
 	Password bool   `json:"password"`
 	DTLS     bool   `json:"dtls"`
+	// SelfSignedOnly: --self-signed (a certificate is available) WITHOUT --dtls: the transport is plain UDP
+	SelfSignedOnly bool `json:"self_signed_only,omitempty"`
 	Insecure string `json:"insecure"` // off, flag, env, flag-false (--insecure=false), env-false (INSECURE=false)
 }
 
@@ -153,6 +155,8 @@ func runC31(c c31Case) (r vf.Result) {
 	}
 	if c.DTLS {
 		args = append(args, "--dtls", "--self-signed")
+	} else if c.SelfSignedOnly {
+		args = append(args, "--self-signed")
 	}
 	switch c.Insecure {
 	case "flag":
@@ -220,7 +224,7 @@ func runC31(c c31Case) (r vf.Result) {
 func TestC31CLI(t *testing.T) {
 	vf.Check(t, vf.Prop[c31Case]{
 		ID: "C31", Name: "cli-refuses-plaintext",
-		Rule: "exhaustive: {bisquitt, bisquitt-pub, bisquitt-sub} x credentials {--auth / --user by flag, by environment variable, absent} x {--password given, absent} x {--dtls --self-signed on, off} x {--insecure absent, flag, environment, present with the value false as flag or environment} (for the gateway also --auth=false / AUTH=false): 170 process runs against loopback sockets; every combination is a distinct non-trivial case. The tool must refuse (non-zero exit, no datagram sent / UDP port never bound) iff credentials are configured, DTLS is off and the insecure option is not set to true (absent, or present with the value false); otherwise it must reach the network (first datagram observed / port bound), after which it is killed.",
+		Rule: "exhaustive: {bisquitt, bisquitt-pub, bisquitt-sub} x credentials {--auth / --user by flag, by environment variable, absent} x {--password given, absent} x {--dtls --self-signed on, off, --self-signed alone (the transport stays plain UDP)} x {--insecure absent, flag, environment, present with the value false as flag or environment} (for the gateway also --auth=false / AUTH=false): 255 process runs against loopback sockets; every combination is a distinct non-trivial case. The tool must refuse (non-zero exit, no datagram sent / UDP port never bound) iff credentials are configured, DTLS is off and the insecure option is not set to true (absent, or present with the value false); otherwise it must reach the network (first datagram observed / port bound), after which it is killed.",
 		Assumptions: []string{"real processes and real time: 6 s are allowed per run and an expiry is inconclusive (skipped)", "DTLS handshakes are not completed: only the decision to proceed is observed"},
 		Exhaustive: func(tier string, yield func(c31Case)) {
 			for _, tool := range []string{"bisquitt", "bisquitt-pub", "bisquitt-sub"} {
@@ -233,9 +237,9 @@ func TestC31CLI(t *testing.T) {
 						if tool == "bisquitt" && pw {
 							continue // the gateway has no --password of this kind
 						}
-						for _, dtls := range []bool{false, true} {
+						for _, dtls := range []int{0, 1, 2} { // off, on, off but --self-signed given
 							for _, ins := range []string{"off", "flag", "env", "flag-false", "env-false"} {
-								yield(c31Case{Tool: tool, Creds: creds, Password: pw, DTLS: dtls, Insecure: ins})
+								yield(c31Case{Tool: tool, Creds: creds, Password: pw, DTLS: dtls == 1, SelfSignedOnly: dtls == 2, Insecure: ins})
 							}
 						}
 					}
@@ -256,6 +260,9 @@ type c30Option struct {
 
 type c30Case struct {
 	File     map[string]map[uint16]string `json:"file"` // nil = no file
+	// EmptyDoc: how a file without entries is written: 0 "{}", 1 a document of comments only (null),
+	// 2 "~", 3 "null"
+	EmptyDoc int `json:"empty_doc,omitempty"`
 	Options  []c30Option                  `json:"options"`
 	ViaEnv   bool                         `json:"via_env"`
 	ProbeID  string                       `json:"probe_client"`
@@ -265,7 +272,11 @@ var c30Names = []string{"p/one", "p/two", "dev/any/data", "dev: 1", "yes", "q"}
 
 func genC30(t *rapid.T) c30Case {
 	c := c30Case{ViaEnv: rapid.Bool().Draw(t, "via_env"), ProbeID: rapid.SampledFrom([]string{"c1", "c2", "zz"}).Draw(t, "probe")}
-	if rapid.IntRange(0, 4).Draw(t, "file") > 0 {
+	switch fk := rapid.IntRange(0, 5).Draw(t, "file"); {
+	case fk == 0: // no file
+	case fk == 1: // a file without entries
+		c.File = map[string]map[uint16]string{}
+	default:
 		c.File = map[string]map[uint16]string{}
 		for _, cl := range []string{"*", "c1", "c2"} {
 			n := rapid.IntRange(0, 3).Draw(t, "nfile")
@@ -276,6 +287,9 @@ func genC30(t *rapid.T) c30Case {
 				c.File[cl][uint16(rapid.IntRange(1, 4).Draw(t, "fid"))] = rapid.SampledFrom(c30Names).Draw(t, "fname")
 			}
 		}
+	}
+	if c.File != nil && len(c.File) == 0 {
+		c.EmptyDoc = rapid.IntRange(0, 3).Draw(t, "empty_doc")
 	}
 	n := rapid.IntRange(0, 4).Draw(t, "nopts")
 	for i := 0; i < n; i++ {
@@ -371,7 +385,7 @@ func (c c30Case) configArgs(dir string) (args, env []string, err error) {
 			}
 		}
 		if len(c.File) == 0 {
-			sb.WriteString("{}\n")
+			sb.WriteString([]string{"{}\n", "# c1:\n#   1: commented/out\n", "~\n", "null\n"}[c.EmptyDoc%4])
 		}
 		path := filepath.Join(dir, "topics.yaml")
 		if err := os.WriteFile(path, []byte(sb.String()), 0o644); err != nil {
@@ -752,7 +766,7 @@ func contains(s []string, x string) bool {
 func TestC30(t *testing.T) {
 	vf.Check(t, vf.Prop[c30Case]{
 		ID: "C30", Name: "predefined-config",
-		Rule: "real binaries on loopback sockets: a YAML file (0-3 client blocks from {'*', c1, c2}, IDs 1-4, names incl. ones that need YAML quoting) and/or 0-4 --predefined-topic options ('name;id' and 'client;name;id', overlapping the file and each other, order significant), given by flags or by environment variables; a probe client ID inside or outside the configuration. bisquitt is probed with a PUBLISH on each predefined ID 1-4 (broker-side topic or dropped session), bisquitt-pub and bisquitt-sub with topic names the model knows for the probe client and one it does not (PUBLISH/SUBSCRIBE by predefined ID vs REGISTER/SUBSCRIBE by name). Non-trivial = a configuration with both a file and at least one option that overrides a file entry; distinct by case.",
+		Rule: "real binaries on loopback sockets: a YAML file (0-3 client blocks from {'*', c1, c2}, IDs 1-4, names incl. ones that need YAML quoting; a file without entries written as {}, as a document of comments only, as ~ or as null) and/or 0-4 --predefined-topic options ('name;id' and 'client;name;id', overlapping the file and each other, order significant), given by flags or by environment variables; a probe client ID inside or outside the configuration. bisquitt is probed with a PUBLISH on each predefined ID 1-4 (broker-side topic or dropped session), bisquitt-pub and bisquitt-sub with topic names the model knows for the probe client and one it does not (PUBLISH/SUBSCRIBE by predefined ID vs REGISTER/SUBSCRIBE by name). Non-trivial = a configuration with both a file and at least one option that overrides a file entry; distinct by case.",
 		Assumptions: []string{"model mapping = the file's, overridden entry by entry by the options in order, two-field options under '*'", "an ID chosen by a tool passes if the model maps it back to the requested name for this client (C05's shadowing question is not double-reported)", "real time: a timeout is inconclusive (skipped)"},
 		Gen:         genC30,
 		Run:         runC30,
